@@ -259,15 +259,15 @@ def run(ctx):
             if two:
                 k1, s1, _ = index_src(rng, r.m, ls)
                 k2, s2, _ = index_src(rng, r.n, ls)
-                k1 = "self-imat" if (k1 == "pool-imat" and s1 == p) else k1
-                k2 = "self-imat" if (k2 == "pool-imat" and s2 == p) else k2
+                k1 = "self-imat" if (k1 == "pool-imat" and ls.ref.get(s1) is r) else k1
+                k2 = "self-imat" if (k2 == "pool-imat" and ls.ref.get(s2) is r) else k2
                 ctx.count("c15.index." + k1)
                 ctx.count("c15.index." + k2)
                 lhs = "%s[%s, %s]" % (p, s1, s2)
                 kinds = primary(k1, k2)
             else:
                 k1, s1, _ = index_src(rng, r.m * r.n, ls)
-                k1 = "self-imat" if (k1 == "pool-imat" and s1 == p) else k1
+                k1 = "self-imat" if (k1 == "pool-imat" and ls.ref.get(s1) is r) else k1
                 ctx.count("c15.index." + k1)
                 lhs = "%s[%s]" % (p, s1)
                 kinds = k1
